@@ -1,1 +1,13 @@
 import ThriftVerif.Props.C18
+#print axioms Props.C18.facts_current
+#print axioms Props.C18.deep_equal_iff_partial
+#print axioms Props.C18.deep_equal_iff_fails_missing_key
+#print axioms Props.C18.deep_equal_iff_fails_struct_key
+#print axioms Props.C18.deep_equal_iff_fails_optional_binary
+#print axioms Props.C18.deep_equal_not_symmetric
+#print axioms Props.C18.deep_equal_identical
+#print axioms Props.C18.deep_equal_nil_safe
+#print axioms Props.C18.validate_set_iff
+#print axioms Props.C18.validate_set_write
+#print axioms Props.C18.validate_set_rejects_distinct
+#print axioms Props.C18.write_eq_std
